@@ -34,6 +34,15 @@ async fn read_n<S: AsyncRead + Unpin>(s: &mut S, n: usize) -> Result<Vec<u8>, St
 
 /// SOCKS4 CONNECT (`host` = None) or SOCKS4a CONNECT (`host` = Some(name)).
 pub async fn socks4_connect<S: AsyncRead + AsyncWrite + Unpin>(s: &mut S, ip: Ipv4Addr, port: u16, host: Option<&str>) -> Shake {
+    socks4_connect_with(s, ip, port, host, &[]).await
+}
+
+/// SOCKS4 / SOCKS4a CONNECT of a client that does not wait for the reply before it sends: `with`
+/// (the first bytes of what it has to say to the target) travels in the SAME `write_all` as the
+/// request, then the reply is read. Nothing in the memo forbids it (the bytes simply wait in the
+/// proxy's buffers until the connection to the target exists) and a direct connection would
+/// deliver them. `with` empty: the lock-step client.
+pub async fn socks4_connect_with<S: AsyncRead + AsyncWrite + Unpin>(s: &mut S, ip: Ipv4Addr, port: u16, host: Option<&str>, with: &[u8]) -> Shake {
     let mut req = vec![4u8, 1];
     req.extend_from_slice(&port.to_be_bytes());
     match host {
@@ -46,6 +55,8 @@ pub async fn socks4_connect<S: AsyncRead + AsyncWrite + Unpin>(s: &mut S, ip: Ip
         req.extend_from_slice(h.as_bytes());
         req.push(0);
     }
+    // one buffer, one write: request ++ optimistic data
+    req.extend_from_slice(with);
     if let Err(e) = s.write_all(&req).await {
         return Shake::Closed(format!("write request: {:?}", e.kind()));
     }
@@ -107,6 +118,15 @@ pub async fn socks5_greet<S: AsyncRead + AsyncWrite + Unpin>(s: &mut S) -> Resul
 
 /// SOCKS5 CONNECT to an IP address (`host` = None: ATYP 1 for IPv4, ATYP 4 for IPv6) or a domain name.
 pub async fn socks5_connect<S: AsyncRead + AsyncWrite + Unpin>(s: &mut S, ip: IpAddr, port: u16, host: Option<&str>) -> Shake {
+    socks5_connect_with(s, ip, port, host, &[]).await
+}
+
+/// SOCKS5 CONNECT of a client that pipelines: the method negotiation is done in lock-step (the
+/// client has to know the method before it may send the request), then the CONNECT request and
+/// `with` (the first bytes for the target) travel in ONE `write_all`, then the reply is read.
+/// RFC 1928 does not make the client wait for the reply; the bytes wait in the proxy's buffers.
+/// `with` empty: the lock-step client.
+pub async fn socks5_connect_with<S: AsyncRead + AsyncWrite + Unpin>(s: &mut S, ip: IpAddr, port: u16, host: Option<&str>, with: &[u8]) -> Shake {
     if let Err(e) = socks5_greet(s).await {
         return e;
     }
@@ -127,6 +147,8 @@ pub async fn socks5_connect<S: AsyncRead + AsyncWrite + Unpin>(s: &mut S, ip: Ip
         }
     }
     req.extend_from_slice(&port.to_be_bytes());
+    // one buffer, one write: request ++ optimistic data
+    req.extend_from_slice(with);
     if let Err(e) = s.write_all(&req).await {
         return Shake::Closed(format!("write request: {:?}", e.kind()));
     }
